@@ -51,15 +51,15 @@ pub fn scenario(u: &Unit) -> String {
         }
     }
     let noise = k(1.0e-3) * mag;
-    let above = noise.le(tot);
+    let above = noise.le_(tot);
     let eps = k(1.0e-5);
     ob("rer=ren/(ren+nren)", tot.eq_(zero).or(ep.rer.ident(ren / tot)));
     ob("tot=0=>rer=0", tot.eq_(zero).implies(ep.rer.ident(zero)));
-    ob("ren>=0", above.clone().implies(zero.le(ren)));
-    ob("nren>=0", above.clone().implies(zero.le(nren)));
-    ob("0<=rer<=1", above.clone().implies((zero - eps).le(ep.rer).and(ep.rer.le(one + eps))));
-    ob("0<=rer_onst", above.clone().implies((zero - eps).le(ep.rer_onst)));
-    ob("rer_onst<=rer_nrb", above.clone().implies(ep.rer_onst.le(ep.rer_nrb + eps)));
-    ob("rer_nrb<=rer", above.implies(ep.rer_nrb.le(ep.rer + eps)));
+    ob("ren>=0", above.clone().implies(zero.le_(ren)));
+    ob("nren>=0", above.clone().implies(zero.le_(nren)));
+    ob("0<=rer<=1", above.clone().implies((zero - eps).le_(ep.rer).and(ep.rer.le_(one + eps))));
+    ob("0<=rer_onst", above.clone().implies((zero - eps).le_(ep.rer_onst)));
+    ob("rer_onst<=rer_nrb", above.clone().implies(ep.rer_onst.le_(ep.rer_nrb + eps)));
+    ob("rer_nrb<=rer", above.implies(ep.rer_nrb.le_(ep.rer + eps)));
     "ok".into()
 }
